@@ -26,6 +26,17 @@ def gen_cases(chk):
             rng.shuffle(pal)
             c["palette"] = pal
         cases.append(c)
+    # an early stop, a restore from the folder (or not), and a later call asking for several batches whose own losses do not
+    # round to zero: "the smallest loss found SO FAR" includes the history before the restore, so the later call stops after one
+    for i in range(40 if quick else 300):
+        c = cc.gen_case(rng, len(cases), max_ops=1, max_samplers=2, bs_max=2, e_max=1, prec_prob=1, nmax=6)
+        p = rng.randint(0, 12)
+        c["cfg"].update(prec=p, saving=True, verbose=bool(rng.below(2)))
+        big = [rng.choice([3.5, 1.25, 2.0, 10.0, 7.0, 100.0, 1.5]) for _ in range(6)]
+        c["palette"] = big + [rng.choice([0.0, 0.25, -0.25]) * 10.0 ** (-p)]
+        c["ops"] = [["calibrate", 6]] + ([["restore"]] if i % 3 else []) + [["calibrate", rng.randint(2, 4)]] + \
+                   ([["restore"], ["calibrate", 2]] if i % 4 == 0 else [])
+        cases.append(c)
     return cases
 
 
